@@ -36,7 +36,7 @@ extern "C" ssize_t __wrap_write(int fd, const void *buf, size_t n) {
     return __real_write(fd, buf, n);
 }
 
-struct Scn { gen::ZFile B, A; bool haveA = false; Bytes T0; dl::Server srv; dl::UpdateCfg cfg; uint64_t cutseed = 0, cutstyle = 0; std::string desc; };
+struct Scn { gen::ZFile B, A, A2; bool haveA = false, haveA2 = false; Bytes T0; dl::Server srv; dl::UpdateCfg cfg; uint64_t cutseed = 0, cutstyle = 0; std::string desc; };
 
 static dl::UpdateResult run(Scn &s, int tfd) { s.srv.log.clear(); return dl::run_update(s.srv, tfd, s.cfg); }
 
@@ -55,6 +55,9 @@ static void prop(Ctx &c) {
     gen::ZParams qb = gen::zparams(c, o); s.B = gen::zfile_build(c, qb); size_t n = s.B.nchunks();
     s.haveA = c.boolean(); std::string adesc = "absent";
     if (s.haveA) { gen::ZParams qa = qb; qa.by_ref = false; size_t ne = 1 + c.draw(2); for (size_t e = 0; e < ne; e++) { if (!qa.chunks.empty() && c.boolean()) qa.chunks[c.pick(qa.chunks.size())] = gen::chunk_content(c, o.max_chunk); else qa.chunks.insert(qa.chunks.begin() + c.draw(qa.chunks.size()), gen::chunk_content(c, o.max_chunk)); } s.A = gen::zfile_build(c, qa); adesc = "edited"; }
+    // the restart may be given another local source than the interrupted attempt had (zckdl -s old1, then zckdl -s old2): an older
+    // version that shares most of B's chunks
+    if (c.gver >= 4 && c.rarely(3)) { gen::ZParams qa = qb; qa.by_ref = false; if (!qa.chunks.empty()) { qa.chunks[c.pick(qa.chunks.size())] = gen::chunk_content(c, o.max_chunk); if (qa.chunks.size() > 2 && c.boolean()) qa.chunks.erase(qa.chunks.begin() + c.pick(qa.chunks.size())); } s.A2 = gen::zfile_build(c, qa); s.haveA2 = true; adesc += " / restart with another source"; c.label("restart-with-another-source"); }
     std::string tdesc;
     switch (c.draw(3)) {
     case 0: tdesc = "empty"; break;
@@ -105,19 +108,21 @@ static void prop(Ctx &c) {
             else if (off < S1.size()) { bool differs_from_t0 = false; for (size_t p = off; p < off + cl && p < S1.size(); p++) if (p >= s.T0.size() || S1[p] != s.T0[p]) differs_from_t0 = true; if (differs_from_t0) partial_chunks++; } }
         if (partial_chunks && complete) nontriv++;
         // ---- resume with fresh contexts
-        g_kill_at = 0; g_target_fd = -1; dl::UpdateResult r = run(s, tfd); close(tfd);
+        const Bytes *A1 = s.cfg.A; if (s.haveA2) s.cfg.A = &s.A2.file;
+        g_kill_at = 0; g_target_fd = -1; dl::UpdateResult r = run(s, tfd); close(tfd); s.cfg.A = A1;
+        const ref::Header *RA = s.haveA2 ? &s.A2.h : s.haveA ? &s.A.h : nullptr;      // the source the restart had
         std::string tag = "kill at write " + std::to_string(k) + "/" + std::to_string(W) + " (" + (partial == 0 ? "nothing" : partial == 1 ? "half" : partial == 2 ? "all but one byte" : "all") + " of it written)" + (second_kill ? " + second interruption" : "");
         if (!r.ok) { fsig = "resume-fails"; fmsg = tag + ": resume failed at stage " + std::to_string(r.stage) + ": " + r.err; break; }
         if (r.target != s.B.file) { fsig = "resume-wrong-file"; fmsg = tag + ": resumed target differs from B"; break; }
         if (r.final_missing != 0) { fsig = "resume-missing"; fmsg = tag + ": chunks still missing after the resume"; break; }
         for (size_t i = 0; i < r.flags_after_scan.size() && i < n; i++) {
-            bool in_a = false; if (s.haveA) for (auto &e : s.A.h.entries) if (e.digest == s.B.h.entries[i].digest && e.comp_len == s.B.h.entries[i].comp_len && e.len == s.B.h.entries[i].len) in_a = true;
+            bool in_a = false; if (RA) for (auto &e : RA->entries) if (e.digest == s.B.h.entries[i].digest && e.comp_len == s.B.h.entries[i].comp_len && e.len == s.B.h.entries[i].len) in_a = true;
             if (r.flags_after_scan[i] == 1 && !on_disk[i] && !in_a) { fsig = "partial-chunk-trusted"; fmsg = tag + ": after the resume's scan chunk " + std::to_string(i) + " is valid although its bytes on disk do not match its checksum"; break; }
         }
         if (!fsig.empty()) break;
         for (auto &rq : r.requested) { std::vector<dl::Range> v; dl::parse_ranges(rq, v);
             for (auto &x : v) for (size_t i = 0; i < n; i++) { size_t off = s.B.off(i), cl = s.B.clen(i); if (!cl) continue;
-                bool in_a = false; if (s.haveA) for (auto &e : s.A.h.entries) if (e.digest == s.B.h.entries[i].digest && e.comp_len == s.B.h.entries[i].comp_len && e.len == s.B.h.entries[i].len) in_a = true;
+                bool in_a = false; if (RA) for (auto &e : RA->entries) if (e.digest == s.B.h.entries[i].digest && e.comp_len == s.B.h.entries[i].comp_len && e.len == s.B.h.entries[i].len) in_a = true;
                 if (!on_disk[i] && in_a && x.s <= off + cl - 1 && x.e >= off) { fsig = "refetched-chunk-available-in-A"; fmsg = tag + ": the resume requested " + std::to_string(x.s) + "-" + std::to_string(x.e) + " which overlaps chunk " + std::to_string(i) + " that the old file A provides"; }
                 if (!on_disk[i]) continue; if (x.s <= off + cl - 1 && x.e >= off) { fsig = "refetched-complete-chunk"; fmsg = tag + ": the resume requested " + std::to_string(x.s) + "-" + std::to_string(x.e) + " which overlaps chunk " + std::to_string(i) + " that was completely and correctly on disk"; } } }
         if (!fsig.empty()) break;
